@@ -121,9 +121,10 @@ NestCells ==
 \* a call without / with arguments, a cast, a named constant, an element of an array / of an array of arrays /
 \* of a view parameter, a member / a member of a member / a member through a pointer parameter, a suffixed
 \* literal, a parenthesised variable, `|x|`, `|:T|`
-AllForms == {"call", "callarg", "cast", "const", "elem", "elem2", "velem", "mem", "mem2", "pmem", "lit", "paren", "len", "sizeof"}
+\* hexlit: a naked hexadecimal literal `0x05`, which takes its type from the context (eighth round of seeded changes)
+AllForms == {"call", "callarg", "cast", "const", "elem", "elem2", "velem", "mem", "mem2", "pmem", "lit", "paren", "len", "sizeof", "hexlit"}
 FormOK(f, t) == CASE f \in {"len", "sizeof"} -> t = P("usize")
-                  [] f = "cast" -> IsInt(t)
+                  [] f \in {"cast", "hexlit"} -> IsInt(t)
                   [] OTHER -> IsPrim(t)
 FT == {I32, U8, P("usize"), Bool}
 TwoOperand == {"bin", "cmp", "elem"}
@@ -134,12 +135,14 @@ FormBase ==
     \cup {Cell("un", op, t, 0, <<>>, 0) : op \in UnOps, t \in FT}
     \cup {Cell(k, "", t, 0, u, 0) : k \in {"as", "assign", "init", "member", "arg", "arg2", "ret"}, t \in FT, u \in FT}
 \* (`-7u8` is a negative literal, not a negation: no literal operand of a unary operator)
-FormCellOK(cl, f) == ~(cl.ctx = "un" /\ f = "lit")
+\* (... but `-0x05` IS one: only decimal literals carry a sign; the naked hexadecimal operand is used in the unary cells only,
+\* where the declared type of the result gives it its type)
+FormCellOK(cl, f) == ~(cl.ctx = "un" /\ f = "lit") /\ (f = "hexlit" => cl.ctx = "un")
 FormCells ==
     {[q[1] EXCEPT !.fa = q[2]] : q \in {p \in FormBase \X AllForms : FormOK(p[2], p[1].a) /\ FormCellOK(p[1], p[2])}}
-    \cup {[q[1] EXCEPT !.fb = q[2]] : q \in {p \in {r \in FormBase : r.ctx \in TwoOperand} \X AllForms : FormOK(p[2], p[1].b)}}
+    \cup {[q[1] EXCEPT !.fb = q[2]] : q \in {p \in {r \in FormBase : r.ctx \in TwoOperand} \X (AllForms \ {"hexlit"}) : FormOK(p[2], p[1].b)}}
     \cup {[q[1] EXCEPT !.fa = q[2], !.fb = q[2]] :
-              q \in {p \in {r \in FormBase : r.ctx \in TwoOperand} \X AllForms : FormOK(p[2], p[1].a) /\ FormOK(p[2], p[1].b)}}
+              q \in {p \in {r \in FormBase : r.ctx \in TwoOperand} \X (AllForms \ {"hexlit"}) : FormOK(p[2], p[1].a) /\ FormOK(p[2], p[1].b)}}
 
 \* --- pre: a second unit next to the construct -------------------------------------------------------
 \* s_call       a well-typed call statement (two arguments) before the construct
